@@ -556,6 +556,14 @@ def mem_witness(ctx, obligations_failed, tie_fail):
     hit = [t for t in tf if t[2] is not None]
     return hit[0] if hit else None
 
+def cli_tie(ctx, tie_fail):
+    streams.CLI.env = {"PSV_CLI": os.path.join(ctx.repo_build, "primesieve")}
+    return streams.CLI.tie(ctx, tie_fail)
+
+def cli_witness(ctx, obligations_failed, tie_fail):
+    streams.CLI.env = {"PSV_CLI": os.path.join(ctx.repo_build, "primesieve")}
+    return streams.CLI.witness(ctx, obligations_failed, tie_fail)
+
 SAN_ASSUME = ["every correspondence stream of this framework runs on a build with -fsanitize=address,undefined "
               "-fno-sanitize-recover=all -DENABLE_ASSERT (bounds-checked Vector/Array): an abort is reported as a violation "
               "with the operation that triggers it"]
@@ -573,6 +581,29 @@ REGISTRY.update({
                       "against an oracle (fault enumeration), not by a theorem"],
         explanation="iterator under arbitrary allocation-failure schedules refines a cursor that may refuse a call without "
                     "moving (proof); every allocation point of every workload enumerated (tie)"),
+    "C16": Prop(
+        targets=["PsProps.C16"],
+        theorems=[("PsProps.C16", "Ps.Props.C16_calc_exact_or_rejected"), ("PsProps.C16", "Ps.Props.C16_checked_arith"),
+                  ("PsProps.C16", "Ps.Props.C16_arguments_in_range"), ("PsProps.C16", "Ps.Props.C16_distance_exact"),
+                  ("PsProps.C16", "Ps.Props.C16_negative_number_rejected"), ("PsProps.C16", "Ps.Props.C16_conflicting_options"),
+                  ("PsProps.C16", "Ps.Props.C16_operator_table"), ("PsProps.C16", "Ps.Props.C16_calculator_source"),
+                  ("PsProps.C16", "Ps.Props.C16_option_grammar")],
+        tie=combine(("calc", streams.CALC.tie), ("cli", cli_tie)), witness=combine_witness(streams.CALC.witness, cli_witness),
+        assumptions=COUNT_ASSUME + [
+            "the exact semantics is the same operator-precedence parser run over unbounded integers (Arith.exact); that this "
+            "parser implements the documented precedence/associativity is decided by the calc stream, whose generator renders "
+            "random ASTs with minimal parentheses and evaluates the AST (not the string) with big integers",
+            "the parser model uses a fuel of 2*len+8 recursive calls; fuel exhaustion is a distinct outcome that the calc stream "
+            "would report as a disagreement",
+            "argv reaches the program through /bin/sh quoting in the harness; stdout is canonicalised by dropping the status, "
+            "'Seconds:', 'Sieve size =' and 'Threads =' lines"],
+        undischarged=["'same answers as the library' (stdout of the binary = library results for the parsed interval) is tied by "
+                      "the cli stream against in-process library calls and the Lean count/print model, not proved as a theorem "
+                      "about main.cpp's printing code",
+                      "--stress-test, --test, -R, --cpu-info, --help output is not modelled (only their exit status)"],
+        explanation="uint64 parser refines the exact-integer parser (every accepted value is exact and < 2^64, intermediates "
+                    "included); checked add/sub/mul exact at all three instantiated types; interval / n in range for every argv; "
+                    "operator table, option table, dispatch switches, guards and value types regenerated from the source"),
     "C17": Prop(
         targets=["PsProps.C17"],
         theorems=[("PsProps.C17", "Ps.Props.C17_prev_chunk_bounded"), ("PsProps.C17", "Ps.Props.C17_next_dist_range"),
